@@ -18,7 +18,7 @@ def obligations(tier):
     Kh, Vh = (4, 6) if tier == "quick" else (4, 8)
     for kind in ("RESPONSE", "REQUEST"):
         obs.append(dict(name="head_" + kind.lower(), harness="C26_head.c", entry="harness_head",
-                    defines=["VP_" + kind, "VP_K=%d" % Kh, "VP_V=%d" % Vh], unwind=24, timeout=900, mem_gb=6,
+                    defines=["VP_" + kind, "VP_K=%d" % Kh, "VP_V=%d" % Vh], unwind=24, unwindset=["vp_in_set.0:80"], timeout=900, mem_gb=6,
                     desc="%s head: writes == start line, caller's header (name<=%d, value<=%d symbolic bytes), automatic headers, CRLF, body (symbolic code/version/method/body length)" % (kind.lower(), Kh, Vh)))
     # (b) acceptance
     K, V = (4, 6) if tier == "quick" else (5, 8)
@@ -27,6 +27,11 @@ def obligations(tier):
                     defines=["VP_ACC_" + what, "VP_K=%d" % K, "VP_V=%d" % V], unwind=max(V + 3, 12),
                     unwindset=["vp_in_set.0:80", "strlen.0:34", "event_mm_strdup_.0:34"], timeout=600, mem_gb=4,
                     desc="%s accepted by the API is safe to embed, stored unchanged; ordinary strings not refused (name<=%d, value/phrase/target<=%d symbolic bytes)" % (what.lower(), K, V)))
+    # (d) chunked replies
+    for mi in (1, 0):
+        obs.append(dict(name="chunk_reply_1%d" % mi, harness="C26_chunk.c", entry="harness_chunk", defines=["VP_MINOR=%d" % mi], unwind=24, unwindset=["vp_in_set.0:80"],
+                    instrument=[["--replace-calls", "evhttp_send_done:vp_cut_send_done"]], native=False, timeout=600, mem_gb=4,
+                    desc="send_reply_start/chunk/end on HTTP/1.%d: chunk-size == data length for every size_t length; terminator written" % mi))
     # (c) format lemma (reference only)
     for what in ("FIELD", "STATUS", "REQUEST"):
         obs.append(dict(name="lemma_" + what.lower(), harness="C26_lemma.c", entry="harness_lemma",
